@@ -1,4 +1,5 @@
 import Sqljson.Audit
+import Sqljson.Props.Fuel
 import Sqljson.Props.C01
 open Sqljson
 #audit_ns C01 Sqljson.C01
@@ -12,3 +13,5 @@ open Sqljson
 #audit_ns C01 Sqljson.C14
 #audit_ns C01 Sqljson.C15
 #audit_ns C01 Sqljson.C16
+#audit_ns C01 Sqljson.FuelProps
+#audit C01 [Sqljson.Exec.Fuel.sim_all, Sqljson.Exec.Fuel.adequate_all]
